@@ -288,7 +288,7 @@ theorem updateComps_fst_eq_foldl (s : SimState) (it : Item) (cur : Name → Val)
     exact ih _
 
 /-- The model's accumulation is literally the left fold the code performs, in the code's order of operations
-(`Gen.Reward.updateIsWeightedLeftFold` ties the shape of `RewardFunction.update` to it). -/
+(`C10_gen_update`, Props/C10Calc.lean, proves that the translated source of `RewardFunction.update` computes it). -/
 theorem C10_update_is_left_fold (s : SimState) (it : Item) (cur : Name → Val) (comps : List (Comp × Val)) :
     (updateComps s it cur 0 comps).1 =
       weightedFold (· + ·) (· * ·) (0 : Val) (comps.map (fun cw => (cw.2, (calcComp s it cur cw.1).1))) :=
@@ -486,7 +486,6 @@ theorem C10_gen_defaults :
 /-- text-shape flags of the functions the models transcribe by hand (each recomputed from the source on every run;
 deliberately blunt — the semantic ties of these functions are the differential rigs) -/
 theorem C10_gen_shape :
-    Gen.Reward.updateIsWeightedLeftFold = true ∧ Gen.Reward.updateAgentsShape = true ∧
     Gen.Reward.agentRewardPlumbing = true ∧ Gen.Reward.setupRewardSharingShape = true := by
   decide
 
